@@ -266,7 +266,7 @@ func run(e *core.Env) {
 	disturbed := map[netip.Addr]bool{}
 
 	seq := 0
-	inbound := func() {
+	inbound := func(force *flow) {
 		seq++
 		si := 1 + tp.Intn(3)
 		proto := []uint8{6, 17, 58, 6, 17, 1, 47, 0, 255, uint8(tp.Intn(256))}[tp.Intn(10)]
@@ -294,6 +294,8 @@ func run(e *core.Env) {
 		}
 		sport := uint16(1024 + tp.Intn(60000))
 		switch mode := tp.Intn(5); {
+		case force != nil:
+			si, proto, sport, dport = force.si, force.proto, force.sport, force.dport
 		case mode == 0 && len(prevIn) > 0:
 			fl := prevIn[tp.Intn(len(prevIn))]
 			si, proto, sport, dport = fl.si, fl.proto, fl.sport, fl.dport
@@ -527,14 +529,70 @@ func run(e *core.Env) {
 		}
 	}
 
+	// rekey: router a has lost its keys for b (a restart, an expired session) and sets up
+	// new ones with a real hello exchange; b serves the request on its live session.
+	rekey := func(a, b *node.Node) {
+		sess := a.State.GetSession(b.IP)
+		if sess == nil {
+			return
+		}
+		old := sess.Encryption()
+		if err := a.State.SetEncryptionSession(b.IP, nil); err != nil {
+			return
+		}
+		if _, err := a.Router.HelloPing.Send(b.IP); err != nil {
+			// an exchange of a is still within its 30 s: no second one; a keeps its keys
+			_ = a.State.SetEncryptionSession(b.IP, old)
+			return
+		}
+		simnet.Wait()
+		ms.Net.DrainFIFO(tp, 2000)
+		sa, sb := a.State.GetSession(b.IP), b.State.GetSession(a.IP)
+		if sa == nil || sb == nil || !sa.Encryption().IsSetUp() || !sb.Encryption().IsSetUp() {
+			e.Infra("hello exchange %s<->%s in mid-run did not complete", names[a.IP], names[b.IP])
+		}
+		e.Probe("hello_exchange_repeated_mid_run")
+	}
+
 	nOps := 6 + tp.Intn(40)
 	for op := 0; op < nOps; op++ {
 		e.Step()
-		switch tp.Pick(8, 3, 2, 1) {
+		switch tp.Pick(8, 3, 2, 1, 1, 1) {
 		case 0:
-			inbound()
+			inbound(nil)
+		case 5:
+			// One history in one go: an earlier inbound flow (admitted or refused), a report
+			// that its sender is unreachable, a fresh hello exchange with that sender, and the
+			// same flow again - all within the lifetime of R's record of the flow.
+			if len(prevIn) == 0 {
+				continue
+			}
+			fl := prevIn[tp.Intn(len(prevIn))]
+			inbound(&fl)
+			x := nodes[fl.si]
+			from := nodes[1+tp.Intn(3)]
+			_ = from.Router.ErrorPing.SendUnreachable(R.IP, x.IP)
+			disturbed[x.IP] = true
+			simnet.Wait()
+			ms.Net.DrainFIFO(tp, 500)
+			a, b := x, rN
+			if tp.Chance(1, 3) {
+				a, b = rN, x
+			}
+			rekey(a, b)
+			inbound(&fl)
+			e.Probe("flow_repeated_after_unreachable_report_and_new_hello")
 		case 1:
 			outbound()
+		case 4:
+			// a sender (or R) sets up fresh end-to-end keys with a new hello exchange: a
+			// completed exchange proves nothing about what the configuration admits
+			i := 1 + tp.Intn(3)
+			a, b := nodes[i], rN
+			if tp.Chance(1, 3) {
+				a, b = rN, nodes[i]
+			}
+			rekey(a, b)
 		case 3:
 			// an authentic error ping to R: some router reports a router unreachable, or a
 			// destination service as rejecting / denying
